@@ -117,6 +117,17 @@ CLAIMS = {
   COMMON_NOTE + "esolver is run with -m 2^46 because its default 4 GB address-space limit cannot hold the sanitizer runtime. Problem text comes from the library's own writers (C08/C09). "
   "The text layer of the solution file (splitting lines at ' = ') is python, compared structurally; exit code and option parsing are observed, not modelled.",
   "DESIGN.md C19", "Lean 4 proof of the solution-file codec + model/implementation correspondence check on the real binary"),
+ "C17": ("proof",
+  "Partial, and labelled so. Proved in Lean: the size bookkeeping of the growable per-row / per-column arrays (counts vs rowsize / colsize / structsize / matcolsize with lib.c's growth "
+  "rule and the EXTRA_* constants re-extracted from the source on every run) - for every history of additions and deletions every write index lies inside the array as sized after the "
+  "growth step (invariant by induction over the history). Tied to /repo: counts and capacities of the real object are compared with the Cap model after every call of add-heavy and "
+  "mixed histories. NOT provable in a model and therefore observed, not proved: actual memory accesses, undefined behaviour, uninitialised reads and reproducibility are runtime "
+  "behaviour; a battery of multi-object interleavings, solves with warm restarts / tableau calls / file round trips, long edit histories and mutated LP / MPS inputs runs on the "
+  "ASan+UBSan build (GMP memory malloc'ed), a subset under Valgrind memcheck on the plain build, and every transcript is re-executed on the plain build with allocator fill 0x55 / 0xAA "
+  "(single arena) and with address-space randomisation off - all transcripts byte-identical. Every other property's check also runs on the sanitizer build.",
+  COMMON_NOTE + "The sparse-matrix free-space management (matsize/matfree, matrix_addcoef moves) is not in the Cap model. Sanitizer, memcheck and reproducibility results are exploration of the "
+  "generated battery; they support the claim, they are not theorems.",
+  "DESIGN.md C17", "Lean 4 proof of the capacity bookkeeping + correspondence check; sanitizers / memcheck / repeated runs as supporting observation"),
  "C03": ("proof",
   "Partial by nature. Proved in Lean: soundness of the three certificate checkers (optimality, Farkas, unbounded ray), mutual exclusivity of the three "
   "classes and uniqueness of the certified value - so the 'mathematical truth' of an LP is well defined by whichever certificate exists - and the "
